@@ -1,7 +1,8 @@
 (* C16 -- key-usage policy: operations use a component allowed to perform them, or refuse.
    Statements only; every proof is `exact <lemma>` into Proofs/Policy_lemmas.v.
    comp_flags k user = the flag sets of the receiver (component 0) and of its subkeys (components 1..n, insertion order), as
-   _get_key_flags computes them; usage / perform = KeyAction.usage / KeyAction.__call__.  All scan theorems hold for a key
+   _get_key_flags computes them; comp_attr k i = the public / protected / unlocked state of component i (every component has its
+   own); usage / perform = KeyAction.usage / KeyAction.__call__ under rules_now (the code as it is).  All scan theorems hold for a key
    with ANY number of subkeys (induction over the list). *)
 From Coq Require Import ZArith List Bool Sorting.Sorted.
 Import ListNotations.
@@ -45,21 +46,89 @@ Theorem C16_primary_certifies : forall uids user f, flags_primary uids user = FO
 Proof. exact primary_certifies. Qed.
 Print Assumptions C16_primary_certifies.
 
-(* precondition matrix: key form x operation -> the attribute check_attributes complains about *)
-Theorem C16_precondition_matrix : forall k f o, has_form k f -> check_attributes k o = matrix f o.
+(* precondition matrix: form of ONE key object (receiver or subkey) x operation -> the attribute check_attributes complains about *)
+Theorem C16_precondition_matrix : forall a f o, has_form a f -> check_attributes a o = matrix f o.
 Proof. exact precondition_matrix. Qed.
 Print Assumptions C16_precondition_matrix.
-Example C16_every_key_has_a_form : forall k, exists f, has_form k f.
+Example C16_every_key_has_a_form : forall a, exists f, has_form a f.
 Proof. exact every_key_has_a_form. Qed.
 
-Theorem C16_private_ops_refuse : forall k o user i w, o <> OEncrypt -> (is_public k = true \/ is_unlocked k = false) ->
-  perform k o user <> Run i w.
+(* repair cab6d36: the conditions are those of the component that does the work.  A private operation (everything but encrypt)
+   runs only on a component of the receiver that is a private key object and unlocked ... *)
+Theorem C16_private_op_runs_only_on_unlocked_private_component : forall k o user i w, o <> OEncrypt -> perform k o user = Run i w ->
+  (i < length (comp_attrs k))%nat /\ is_public (comp_attr k i) = false /\ is_unlocked (comp_attr k i) = true.
+Proof. exact private_op_runs_only_on_unlocked_private_component. Qed.
+Print Assumptions C16_private_op_runs_only_on_unlocked_private_component.
+
+(* ... and public-key encryption only on a public one *)
+Theorem C16_encrypt_runs_only_on_public_component : forall k user i w, perform k OEncrypt user = Run i w ->
+  (i < length (comp_attrs k))%nat /\ is_public (comp_attr k i) = true.
+Proof. exact encrypt_runs_only_on_public_component. Qed.
+Print Assumptions C16_encrypt_runs_only_on_public_component.
+
+Theorem C16_private_ops_refuse : forall k o user i w, o <> OEncrypt ->
+  (is_public (comp_attr k i) = true \/ is_unlocked (comp_attr k i) = false) -> perform k o user <> Run i w.
 Proof. exact private_ops_refuse. Qed.
 Print Assumptions C16_private_ops_refuse.
 
-Theorem C16_encrypt_refuses_private : forall k user i w, is_public k = false -> perform k OEncrypt user <> Run i w.
+Theorem C16_encrypt_refuses_private : forall k user i w, is_public (comp_attr k i) = false -> perform k OEncrypt user <> Run i w.
 Proof. exact encrypt_refuses_private. Qed.
 Print Assumptions C16_encrypt_refuses_private.
+
+(* non-vacuity: unprotected primary + locked signing subkey refuses (is_unlocked), unlocked it signs on the subkey; a locked
+   primary does not stop its unprotected subkey from signing but cannot certify itself *)
+Example C16_mixed_protection_example :
+  perform (mixed_key a_plain a_locked) OSign None = BadAttr IsUnlocked /\
+  perform (mixed_key a_plain a_unlocked) OSign None = Run 1 false /\
+  perform (mixed_key a_locked a_plain) OSign None = Run 1 false /\
+  perform (mixed_key a_locked a_plain) OCertify None = BadAttr IsUnlocked /\
+  perform (mixed_key a_locked a_locked) OSign None = BadAttr IsUnlocked /\
+  perform (mixed_key a_unlocked a_unlocked) OSign None = Run 1 false /\
+  perform (mixed_key a_pub a_pub) OSign None = BadAttr IsPublic.
+Proof. exact mixed_protection_example. Qed.
+
+(* the rule before cab6d36 (conditions of the RECEIVER) is refuted: it ran a private operation on a locked component, and refused
+   a usable subkey because the primary key was locked *)
+Theorem C16_lockcheck_old_refuted :
+  perform_old_lockcheck (mixed_key a_plain a_locked) OSign None = Run 1 false /\
+  is_unlocked (comp_attr (mixed_key a_plain a_locked) 1) = false /\
+  perform (mixed_key a_plain a_locked) OSign None = BadAttr IsUnlocked /\
+  perform_old_lockcheck (mixed_key a_locked a_plain) OSign None = BadAttr IsUnlocked /\
+  is_unlocked (comp_attr (mixed_key a_locked a_plain) 1) = true /\ is_public (comp_attr (mixed_key a_locked a_plain) 1) = false /\
+  perform (mixed_key a_locked a_plain) OSign None = Run 1 false.
+Proof. exact lockcheck_old_refuted. Qed.
+Print Assumptions C16_lockcheck_old_refuted.
+
+(* repair a0cb78f: no outcome is an exception other than PGPError (the Crash constructor is kept only to state the earlier rules) *)
+Theorem C16_no_crash : forall k o user c, perform k o user <> Crash c.
+Proof. exact no_crash. Qed.
+Print Assumptions C16_no_crash.
+
+(* an unknown user= is refused whatever the operation and the flags *)
+Theorem C16_unknown_user_refused : forall k o user, k_present k = true -> (k_uids k <> [] \/ k_primary k = false \/ o = OCertify) ->
+  user_unknown k user = true -> perform k o user = NoUser.
+Proof. exact unknown_user_refused. Qed.
+Print Assumptions C16_unknown_user_refused.
+
+(* the rules before a0cb78f are refuted: unknown user= and a subkey without binding signature in effect raised *)
+Theorem C16_crash_old_refuted :
+  perform_old_crash (mixed_key a_plain a_plain) OSign (Some 98) = Crash CrashUser /\
+  perform (mixed_key a_plain a_plain) OSign (Some 98) = NoUser /\
+  perform (mixed_key a_plain a_plain) OSign (Some 97) = Run 1 false /\
+  perform_old_crash unbound_key OSign None = Crash CrashNoBinding /\
+  perform unbound_key OSign None = Run 2 false /\
+  perform unbound_key OEncrypt None = NoUsage.
+Proof. exact crash_old_refuted. Qed.
+Print Assumptions C16_crash_old_refuted.
+
+(* repair 1d6dbd1: a key whose only identity is a user attribute takes its flags from it (before: RuntimeError); user ids go first *)
+Theorem C16_identity_old_refuted :
+  perform_old_identity image_only_key OSign None = Crash CrashNoUserId /\
+  perform image_only_key OSign None = Run 0 false /\
+  flags_primary [ {| u_text := false; u_ids := []; u_sigs := [cert_sig 0 SIGN] |}; {| u_text := true; u_ids := [97]; u_sigs := [cert_sig 0 32] |} ] None
+    = FOk (Z.lor CERTIFY 32).
+Proof. exact identity_old_refuted. Qed.
+Print Assumptions C16_identity_old_refuted.
 
 Theorem C16_perform_nokey : forall k o user, k_present k = false -> perform k o user = NoKey.
 Proof. exact perform_nokey. Qed.
@@ -72,13 +141,13 @@ Proof. exact no_identity_only_certify. Qed.
 Print Assumptions C16_no_identity_only_certify.
 
 Theorem C16_no_identity_first_certification : forall k, k_present k = true -> k_primary k = true -> k_uids k = [] ->
-  perform k OCertify None = match check_attributes k OCertify with Some a => BadAttr a | None => Run 0 false end.
+  perform k OCertify None = match check_attributes (k_attr k) OCertify with Some a => BadAttr a | None => Run 0 false end.
 Proof. exact no_identity_first_certification. Qed.
 Print Assumptions C16_no_identity_first_certification.
 
 Theorem C16_run_requires : forall k o user i w, perform k o user = Run i w ->
-  k_present k = true /\ (k_uids k <> [] \/ k_primary k = false \/ o = OCertify) /\
-  usage k o user = Chosen i w /\ check_attributes k o = None.
+  k_present k = true /\ (k_uids k <> [] \/ k_primary k = false \/ o = OCertify) /\ user_unknown k user = false /\
+  usage k o user = Chosen i w /\ check_attributes (comp_attr k i) o = None.
 Proof. exact run_requires. Qed.
 Print Assumptions C16_run_requires.
 
@@ -91,12 +160,22 @@ Proof. exact run_uses_first_capable. Qed.
 Print Assumptions C16_run_uses_first_capable.
 
 (* "most recent self-signature": with signatures stored in creation order (SorteDeque) the flags of a subkey are those of a
-   qualifying binding signature of maximal creation time; for a user id see C16_selfsig_most_recent below *)
+   qualifying binding signature of maximal creation time - and the empty set when no binding signature is in effect (a0cb78f);
+   for a user id see C16_selfsig_most_recent below *)
 Theorem C16_flags_most_recent : forall sigs f, StronglySorted by_created sigs -> flags_sub sigs = FOk f ->
-  exists s, In s sigs /\ s_qual s = true /\ s_flags s = f /\
-            forall s', In s' sigs -> s_qual s' = true -> s_created s' <= s_created s.
+  (exists s, In s sigs /\ s_qual s = true /\ s_flags s = f /\
+             forall s', In s' sigs -> s_qual s' = true -> s_created s' <= s_created s)
+  \/ ((forall s, In s sigs -> s_qual s = false) /\ f = 0).
 Proof. exact flags_most_recent. Qed.
 Print Assumptions C16_flags_most_recent.
+
+Theorem C16_flags_sub_total : forall sigs, exists f, flags_sub sigs = FOk f.
+Proof. exact flags_sub_total. Qed.
+Print Assumptions C16_flags_sub_total.
+
+Theorem C16_flags_sub_unbound : forall sigs, (forall s, In s sigs -> s_qual s = false) -> flags_sub sigs = FOk 0.
+Proof. exact flags_sub_unbound. Qed.
+Print Assumptions C16_flags_sub_unbound.
 
 (* PGPUID.selfsig (repair 812bc0f): the flags of a user id are those of a CERTIFICATION issued by the key, of maximal creation time
    among those; none when the key has issued no certification on it *)
@@ -109,8 +188,8 @@ Print Assumptions C16_selfsig_most_recent.
 
 (* a signature that is not a certification (a certification revocation, an attestation) does not change the flags of the user id,
    wherever it stands and whatever KeyFlags subpacket it carries *)
-Theorem C16_selfsig_ignores_noncert : forall ids l1 x l2, s_cert x = false ->
-  selfsig_flags {| u_ids := ids; u_sigs := l1 ++ x :: l2 |} = selfsig_flags {| u_ids := ids; u_sigs := l1 ++ l2 |}.
+Theorem C16_selfsig_ignores_noncert : forall tx ids l1 x l2, s_cert x = false ->
+  selfsig_flags {| u_text := tx; u_ids := ids; u_sigs := l1 ++ x :: l2 |} = selfsig_flags {| u_text := tx; u_ids := ids; u_sigs := l1 ++ l2 |}.
 Proof. exact selfsig_ignores_noncert. Qed.
 Print Assumptions C16_selfsig_ignores_noncert.
 
@@ -119,21 +198,23 @@ Print Assumptions C16_selfsig_ignores_noncert.
    over a certification without it - the key refuses, the old rule signed *)
 Theorem C16_selfsig_old_refuted :
   (forall fc fr, StronglySorted by_created (cert_then_rev fc fr)) /\
-  selfsig_flags {| u_ids := [97]; u_sigs := cert_then_rev SIGN 0 |} = SIGN /\
-  selfsig_flags_old {| u_ids := [97]; u_sigs := cert_then_rev SIGN 0 |} = 0 /\
+  selfsig_flags {| u_text := true; u_ids := [97]; u_sigs := cert_then_rev SIGN 0 |} = SIGN /\
+  selfsig_flags_old {| u_text := true; u_ids := [97]; u_sigs := cert_then_rev SIGN 0 |} = 0 /\
   perform (rev_key SIGN 0) OSign None = Run 0 false /\ perform_old_selfsig (rev_key SIGN 0) OSign None = NoUsage /\
   perform (rev_key 0 SIGN) OSign None = NoUsage /\ perform_old_selfsig (rev_key 0 SIGN) OSign None = Run 0 false.
 Proof. exact selfsig_old_refuted. Qed.
 Print Assumptions C16_selfsig_old_refuted.
 
-Theorem C16_flags_sub_crash_iff : forall sigs, flags_sub sigs = FCrash CrashNoBinding <-> forall s, In s sigs -> s_qual s = false.
-Proof. exact flags_sub_crash_iff. Qed.
-Print Assumptions C16_flags_sub_crash_iff.
+(* before a0cb78f that case raised *)
+Theorem C16_flags_sub_old_crash_iff : forall sigs,
+  flags_sub_with rules_old_crash sigs = FCrash CrashNoBinding <-> forall s, In s sigs -> s_qual s = false.
+Proof. exact flags_sub_old_crash_iff. Qed.
+Print Assumptions C16_flags_sub_old_crash_iff.
 
 (* the pre-480b116 code (oldest binding) is refuted on a sorted two-signature history, and end to end *)
 Theorem C16_flags_most_recent_prefix_refuted :
   StronglySorted by_created f7_sigs /\
-  exists f s', flags_sub_with oldest f7_sigs = FOk f /\ In s' f7_sigs /\ s_qual s' = true /\
+  exists f s', flags_sub_with (with_pick rules_now oldest) f7_sigs = FOk f /\ In s' f7_sigs /\ s_qual s' = true /\
                (forall s, In s f7_sigs -> s_qual s = true -> s_flags s = f -> s_created s < s_created s').
 Proof. exact flags_most_recent_prefix_refuted. Qed.
 Print Assumptions C16_flags_most_recent_prefix_refuted.
